@@ -504,12 +504,48 @@ pub fn one_case(ctx: &Ctx, case: u64, l: &mut Local) {
             r.shuffle(&mut discs);
             let alg = *r.pick(&ALL_ALGS);
             let fmt = *r.pick(&FMTS);
-            let parts = Parts { jwt: api::sign_payload(alg, 0, &payload, None), disclosures: discs.clone(), kb: None };
+            // the hash-algorithm marker in every spelling / type
+            match r.below(12) {
+                0 => payload["_sd_alg"] = json!(*r.pick(&["SHA-256", "Sha-256", "sha-256 ", " sha-256", "sha256", "sha-384", "sha-512", "sha3-256", "md5", "", "sha-256\u{0}"])),
+                1 => payload["_sd_alg"] = rand_json(&mut r, 1),
+                2 => payload["_sd_alg"] = json!("sha-256"),
+                _ => {}
+            }
+            // a third of the tokens confirm a holder key and carry an honest KB-JWT (SHA-256 over
+            // exactly this JWT and these disclosures), verified with aud / nonce: the code behind the
+            // key-binding checks then runs on ill-formed signed structures too
+            let with_kb = r.chance(33);
+            let halg = *r.pick(&[Alg::ES256, Alg::EdDSA]);
+            if with_kb {
+                payload["cnf"] = json!({"jwk": keys::holder_jwk_json_canonical(halg, 0)});
+            }
+            let spelling = if r.chance(20) { 1 + r.below(5) } else { 0 };
+            let jwt = if spelling == 0 {
+                api::sign_payload(alg, 0, &payload, None)
+            } else {
+                api::sign_text(&json!({"alg": alg.name()}).to_string(), &model::respell(&payload, spelling), alg.jwt(), &keys::issuer_enc(alg, 0))
+            };
+            let kb = if with_kb {
+                let mut hashed = jwt.clone();
+                for d in &discs {
+                    hashed.push('~');
+                    hashed.push_str(d);
+                }
+                hashed.push('~');
+                Some(api::sign_kb(halg, 0, &json!({"nonce": "n", "aud": "a", "iat": api::now(), "sd_hash": model::digest_of(&hashed)}), Some("kb+jwt")))
+            } else {
+                None
+            };
+            let parts = Parts { jwt, disclosures: discs.clone(), kb };
             p.l.distinct(crate::rng::mix(fp_base ^ gen::shape_fingerprint(&payload) ^ gen::hash_str(&applied.join("+")) ^ (discs.len() as u64) << 50));
             if let Some(t) = parts.encode(fmt, r.next()) {
                 let input = || json!({"signed_payload": payload, "disclosures": discs.iter().map(|d| model::b64d(d).ok().and_then(|b| String::from_utf8(b).ok()).unwrap_or_default()).collect::<Vec<_>>(), "format": fmt.name(), "deviations": applied});
                 let v = api::verify(&t, &Resolver::Fixed(alg, 0), None, fmt);
                 p.judge("SDJWTVerifier::new", &v.out, &input);
+                if with_kb {
+                    let v = api::verify(&t, &Resolver::Fixed(alg, 0), Some(("a", "n")), fmt);
+                    p.judge("SDJWTVerifier::new(kb)", &v.out, &input);
+                }
                 let h = api::holder_new(&t, fmt);
                 p.judge("SDJWTHolder::new", &h, &input);
                 if let Outcome::Ok(mut h) = h {
